@@ -256,3 +256,48 @@ def c13_cross(ctx, dim):
                     ok = True
                 ctx.check('foreign_read_raises', ok, info={'unit': u, 'via': nm})
             ctx.check('magnitude_unchanged_by_foreign', ctx.same_term(q._value, v))
+
+
+@harness('C13.constructed', 'C13', configs=_cfg, functions=FUNCS, must_reach=['check:constructed_quantity_reads_the_same_after_redisplay'],
+         engine_opts={'div_check': False}, cost=2,
+         bounds='a quantity built by the REAL constructor (Unit.X(v), v symbolic; angles up to three turns either way, so that the wrap at one turn is crossed) is read in its '
+                'own unit, in the base unit and through unit_value; its display unit is then changed and changed back (<<, convert, Unit(q)) and it is read again: the same values',
+         assumptions=['tangent-based angular units and temperatures below absolute zero are left to C13.step / C06'])
+def c13_constructed(ctx, dim, a):
+    p = pybc()
+    U = p.Unit
+    if a in ('InchesPer100Yd', 'CmPer100m'):
+        ctx.reach('check:constructed_quantity_reads_the_same_after_redisplay')
+        return
+    v = ctx.real('value', -1200, 1200)
+    if dim == 'Temperature':
+        ctx.assume(v > 0)
+    if dim == 'Angular':
+        from harness.c06 import _angle_rad
+        rad, _ = _angle_rad(ctx, v, a)
+        ctx.assume((rad > -19) & (rad < 19))
+    ua = getattr(U, a)
+    q = ua(v)
+    own = [u for u in enum_units()[dim] if u not in ('InchesPer100Yd', 'CmPer100m')]
+    base = own[0]
+
+    def reads():
+        return {'own': q >> ua, 'get_in': q.get_in(ua), 'base': q >> getattr(U, base), 'raw': q.raw_value}
+    before = reads()
+    uv = q.unit_value
+    ctx.check_eq('constructed_quantity_reads_the_same_after_redisplay', uv, before['own'], rel=1e-12, abs=1e-12, info={'what': 'unit_value vs >> own unit'})
+    other = getattr(U, own[(own.index(a) + 1) % len(own)])
+    for how in ('lshift', 'convert', 'unit_call'):
+        if how == 'lshift':
+            q << other
+            q << ua
+        elif how == 'convert':
+            q.convert(other)
+            q.convert(ua)
+        else:
+            other(q)
+            ua(q)
+        after = reads()
+        for k in before:
+            ctx.check_eq('constructed_quantity_reads_the_same_after_redisplay', after[k], before[k], rel=1e-12, abs=1e-12, info={'read': k, 'after': how})
+        ctx.check_eq('constructed_quantity_reads_the_same_after_redisplay', q.unit_value, uv, rel=1e-12, abs=1e-12, info={'read': 'unit_value', 'after': how})
